@@ -189,19 +189,20 @@ func checkC06(x *X, g impCase) error {
 		x.Class("depth_limit")
 	}
 	x.Sample(g.describeFaults())
+	if len(g.Faults) > 0 {
+		x.NonTrivial(g.describeFaults() + fmt.Sprint(g.Scheds))
+	}
 	for _, s := range g.Scheds {
 		if err := c06RunOne(x, &g, s); err != nil {
 			return err
 		}
-		if len(g.Faults) > 0 {
-			x.NonTrivial(g.describeFaults() + fmt.Sprint(s))
-		}
+		x.Class("executions")
 	}
 	return nil
 }
 
 var c06Prop = Define("C06", "faults",
-	"C05's import graphs (<=6 sysl files + up to 2 faulty foreign leaves) x a set of failing files x failure kind (reader error, syntax error on an import line (2 forms), syntax error in the body (2 forms), truncation that breaks / does not break the file, undetectable .yaml/.json, corrupt .pb/.textpb/.pb.json) x 1-3 completion orders through the gated reader (so the failure is delivered before, between or after its siblings). Oracle: if any file that was actually retrieved fails, Parse returns err!=nil, module==nil and the error text names one of those files; otherwise it succeeds with the expected contributions; never a panic or a stall. Non-trivial: at least one fault present; distinct by (graph, faults, schedule). Class failure_delivered_with_sibling_in_flight counts the mid-fan-out deliveries.",
+	"C05's import graphs (<=6 sysl files + up to 2 faulty foreign leaves) x a set of failing files x failure kind (reader error, syntax error on an import line (2 forms), syntax error in the body (2 forms), truncation that breaks / does not break the file, undetectable .yaml/.json, corrupt .pb/.textpb/.pb.json) x 1-3 completion orders through the gated reader (so the failure is delivered before, between or after its siblings). Oracle: if any file that was actually retrieved fails, Parse returns err!=nil, module==nil and the error text names one of those files; otherwise it succeeds with the expected contributions; never a panic or a stall. Non-trivial: at least one fault present; distinct by (graph, faults, schedules); class 'executions' counts runs of the real parser. Class failure_delivered_with_sibling_in_flight counts the mid-fan-out deliveries.",
 	genC06, checkC06)
 
 // complete fault matrix on small graphs: every single failing file x every kind x every completion order
